@@ -63,7 +63,9 @@ def gen_operand(rng):
     return Fraction(n, d)
 
 
-OPS = ["+", "-", "*", "/", "abs", "=", "<"]
+OPS = ["+", "-", "*", "/", "abs", "=", "<", "quotient", "remainder", "modulo", "gcd", "lcm", "expt",
+       "exact-integer-sqrt", "number->string", "string->number"]
+INT_OPS = {"quotient", "remainder", "modulo", "gcd", "lcm"}
 
 
 def exact(op, xs):
@@ -93,7 +95,44 @@ def exact(op, xs):
     raise ValueError(op)
 
 
+def trunc_div(a, b):
+    q = abs(a) // abs(b)
+    return q if (a >= 0) == (b >= 0) else -q
+
+
 def expected_str(op, xs):
+    """Exact oracle (python ints / Fractions) rendered in the canonical form of the harness."""
+    import math
+    if op in INT_OPS:
+        if any(x.denominator != 1 for x in xs):
+            return "E:TypeMismatch"
+        a, b = int(xs[0]), int(xs[1])
+        if op in ("quotient", "remainder", "modulo"):
+            if b == 0:
+                return "E:divzero"
+            q = trunc_div(a, b)
+            return canon_rep(Fraction({"quotient": q, "remainder": a - b * q, "modulo": a % b}[op]))
+        if op == "gcd":
+            return canon_rep(Fraction(math.gcd(a, b)))
+        return canon_rep(Fraction(0 if a == 0 or b == 0 else abs(a * b) // math.gcd(a, b)))
+    if op == "expt":
+        base, e = xs
+        if e.denominator != 1:
+            return None                      # inexact / irrational: outside the exact oracle
+        e = int(e)
+        if base == 0 and e < 0:
+            return "E:Generic"
+        return canon_rep(base ** e)
+    if op == "exact-integer-sqrt":
+        x = xs[0]
+        if x.denominator != 1 or x < 0:
+            return "E:TypeMismatch"
+        s_ = math.isqrt(int(x))
+        return "(%s %s)" % (canon_rep(Fraction(s_)), canon_rep(Fraction(int(x) - s_ * s_)))
+    if op == "number->string":
+        return '"%s"' % lit(xs[0])
+    if op == "string->number":
+        return canon_rep(xs[0])
     r = exact(op, xs)
     if r is None:
         return "E:divzero"
@@ -118,7 +157,15 @@ def model_expr(op, xs):
         return "render_bool (num_eq (%s) (%s))" % (coq_num(xs[0]), coq_num(xs[1]))
     if op == "<":
         return "render_bool (num_lt (%s) (%s))" % (coq_num(xs[0]), coq_num(xs[1]))
-    raise ValueError(op)
+    if op in ("quotient", "remainder", "modulo"):
+        return "render (%s (%s) (%s))" % (op, coq_num(xs[0]), coq_num(xs[1]))
+    if op == "gcd":
+        return ("match gcd_loop 400 (%s) (%s) with Some r => render r | None => \"FUEL\"%%string end"
+                % (coq_num(xs[0]), coq_num(xs[1])))
+    if op == "exact-integer-sqrt":
+        return ("match exact_integer_sqrt (%s) with Some (s, r) => (\"(\" ++ render_num s ++ \" \" ++ render_num r ++ \")\")%%string "
+                "| None => \"E:TypeMismatch\"%%string end" % coq_num(xs[0]))
+    return None          # lcm, expt, number<->string: engine vs exact oracle only
 
 
 SHAPES = ["literal", "apply", "local", "mixed_literal", "branch", "tail"]
@@ -127,6 +174,8 @@ SHAPES = ["literal", "apply", "local", "mixed_literal", "branch", "tail"]
 def source(op, xs, shape):
     """Steel source text exercising `op` on xs through one syntactic shape (cf. the quantifier)."""
     ls = [lit(x) for x in xs]
+    if op == "string->number":
+        ls = ['"%s"' % l for l in ls]
     names = ["x%d" % i for i in range(len(xs))]
     if shape == "literal":          # constant-folding candidate
         return "(%s %s)" % (op, " ".join(ls))
@@ -140,8 +189,8 @@ def source(op, xs, shape):
     if shape == "branch":           # result used as / inside a branch condition
         if op in ("=", "<"):
             return "(c10-call (lambda (%s) (if (%s %s) #t #f)) %s)" % (" ".join(names), op, " ".join(names), " ".join(ls))
-        return "(c10-call (lambda (%s) (if (number? (%s %s)) (%s %s) 'no)) %s)" % (
-            " ".join(names), op, " ".join(names), op, " ".join(names), " ".join(ls))
+        return "(c10-call (lambda (%s) (if (equal? (%s %s) (%s %s)) (%s %s) 'no)) %s)" % (
+            " ".join(names), op, " ".join(names), op, " ".join(names), op, " ".join(names), " ".join(ls))
     if shape == "tail":             # tail position of a named procedure, result of a loop
         return "(c10-call (lambda (%s) (let loop ([i 0]) (if (< i 1) (loop (+ i 1)) (%s %s)))) %s)" % (
             " ".join(names), op, " ".join(names), " ".join(ls))
@@ -171,14 +220,26 @@ def gen_cases(ck, n):
     cases = []
     for i in range(n):
         op = rng.choice(OPS)
-        if op == "abs":
+        if op in ("abs", "exact-integer-sqrt", "number->string", "string->number"):
             k = 1
-        elif op in ("=", "<"):
+        elif op in ("=", "<", "expt") or op in INT_OPS:
             k = 2
         else:
             k = rng.choice([1, 2, 2, 2, 3, 4])
         xs = [gen_operand(rng) for _ in range(k)]
-        if op == "/" and rng.random() < 0.05:
+        if op in INT_OPS or op == "exact-integer-sqrt":
+            # integers most of the time; a rational now and then for the type error
+            xs = [x if rng.random() < 0.06 else Fraction(x.numerator) for x in xs]
+            if op == "exact-integer-sqrt" and rng.random() < 0.85:
+                xs = [abs(xs[0])]
+            if op == "gcd":
+                # keep Euclid short for the model's fuel: second operand below 2^70
+                xs[1] = Fraction(int(xs[1]) % (2 ** 70)) if xs[1].denominator == 1 else xs[1]
+        if op == "expt":
+            xs[1] = Fraction(rng.choice([0, 1, 2, 3, 5, 10, 31, 32, 62, 63, 64, 100, -1, -2, -3, -10]))
+            if abs(xs[0].numerator) > 2 ** 70 or xs[0].denominator > 2 ** 70:
+                xs[0] = Fraction(rng.randint(-12, 12), rng.choice([1, 1, 2, 3, 7]))
+        if op in ("/", "quotient", "remainder", "modulo") and rng.random() < 0.05:
             xs[-1] = Fraction(0)
         cases.append((op, xs))
     return cases
@@ -234,8 +295,12 @@ def run(ck):
     impl = run_impl(ck, units)
     # model
     exprs = [model_expr(op, xs) for op, xs in cases]
-    model = ck.coq_eval("From SV Require Import c10.Model_C10.\nFrom Coq Require Import ZArith List String.\nImport ListNotations.\nOpen Scope Z_scope.",
-                        exprs)
+    have = [i for i, e in enumerate(exprs) if e is not None]
+    got = ck.coq_eval("From SV Require Import c10.Model_C10.\nFrom Coq Require Import ZArith List String.\nImport ListNotations.\nOpen Scope Z_scope.",
+                      [exprs[i] for i in have])
+    model = [None] * len(exprs)
+    for i, m in zip(have, got):
+        model[i] = m
     seen = set()
     nontrivial = set()
     disagree = 0
@@ -244,8 +309,10 @@ def run(ck):
         want = expected_str(op, xs)
         mod = model[ci]
         g = impl_str(got)
+        if want is None:
+            continue
         ck.cov["evaluations"] += 1
-        key = (op, tuple(canon_rep(x)[0] for x in xs), want[0], sh)
+        key = (op, tuple(canon_rep(x)[0] for x in xs), want[:2], sh)
         if key not in seen:
             seen.add(key)
             if any(canon_rep(x)[0] != "I" or abs(x) > 2**31 for x in xs):
@@ -258,7 +325,7 @@ def run(ck):
             # the property oracle (exact arithmetic) disagrees with the implementation: failing input
             ck.failing_input("%s on %s (%s): engine returned %s, exact result is %s" % (op, case["args"], sh, g, want),
                              case, tag="arith")
-        elif mod != g:
+        elif mod is not None and mod != g and mod != "FUEL":
             disagree += 1
             # model and implementation differ although the implementation is right: the model no longer
             # mirrors the code; the theorems are about something else
